@@ -41,6 +41,7 @@ void* run(void* a) {
   return nullptr;
 }
 void reset() {
+  if (getenv("NESTING_NO_STACKNORM")) return;
   pthread_barrier_init(&g_bar, nullptr, kNorm + 1);
   for (int i = 0; i < kNorm; i++) {
     pthread_mutex_init(&g_slot[i].gate, nullptr);
@@ -101,7 +102,7 @@ struct St {
   mc::Shared<int> leaf_ran[kMaxLeaves];
   mc::Shared<int> next{0};
   mc::Shared<int> workers_waiting{0};
-  mc::Shared<int> outer_ran{0};
+  mc::Shared<int> outer_ran{0}, outer_done{0};
   mc::Shared<int> outer_on_t0{0}, leaf_on_t0{0}, max_waiting{0};
   dispenso::ThreadPool* pool = nullptr;
   int N = 0;
@@ -215,15 +216,26 @@ void run_inner(St& s, dispenso::ThreadPool& pool, char kind, int k, bool ifq) {
   }
 }
 
+// t0 = 'w': T0 waits on the outer set (and so steals work like the documentation promises for waiters);
+// t0 = 'i': T0 is idle - it blocks at harness level until every outer task has ended and only then calls wait(), like a
+// main thread that sleeps on something else. Then the pool threads, all of them inside waits, must finish on their own.
 template <class Set>
-void outer(St& s, dispenso::ThreadPool& pool, Set& set, const std::string& prog, int k, int fq) {
+void outer(St& s, dispenso::ThreadPool& pool, Set& set, const std::string& prog, int k, int fq, bool idle) {
   for (size_t i = 0; i < prog.size(); i++) {
     char kind = prog[i];
-    auto task = [&s, &pool, kind, k, fq] { run_inner(s, pool, kind, k, (fq & 2) != 0); };
+    auto task = [&s, &pool, kind, k, fq] {
+      run_inner(s, pool, kind, k, (fq & 2) != 0);
+      s.outer_done.add(1);
+    };
     if (fq & 1)
       set.schedule(task, dispenso::ForceQueuingTag());
     else
       set.schedule(task);
+  }
+  if (idle) {
+    int want = (int)prog.size();
+    mc::block_until([&s, want] { return s.outer_done.get() == want; });
+    cov("t0_idle");
   }
   set.wait();
 }
@@ -231,25 +243,53 @@ void outer(St& s, dispenso::ThreadPool& pool, Set& set, const std::string& prog,
 
 MC_HARNESS(nest) {
   using namespace nest;
-  int N = (int)P("n", 1), k = (int)P("k", 1), fq = (int)pick(P, "fq", 1, {1, 3, 0});
-  std::string prog = P.s("prog", "T"), o = picks(P, "o", "T", {"C", "T", "L"});
+  int N = (int)P("n", 1), k = (int)P("k", 1), fq = (int)P("fq", 1);
+  std::string prog = P.s("prog", "T"), o = P.s("o", "T"), t0 = P.s("t0", "w");
+  if (o == "*") { // the variants of one program in one run: outer set kind x forcing x T0 role
+    static const struct { const char* o; int fq; const char* t0; } var[] = {
+        {"C", 1, "w"}, {"T", 1, "w"}, {"L", 1, "w"}, {"C", 3, "w"}, {"C", 0, "w"}, {"T", 0, "w"},
+        {"C", 1, "i"}, {"T", 1, "i"}, {"L", 1, "i"}, {"C", 3, "i"}, {"T", 3, "i"}, {"C", 0, "i"}};
+    int c = mc::choose((int)(sizeof var / sizeof var[0]));
+    mc::observe("variant", c);
+    o = var[c].o;
+    fq = var[c].fq;
+    t0 = var[c].t0;
+  } else if (t0 == "*") {
+    int c = mc::choose(2);
+    mc::observe("t0", c);
+    t0 = c ? "i" : "w";
+  }
+  bool idle = t0 == "i" && N > 0;
   St s;
   s.N = N;
+  // Non-termination with backstop timeouts allowed is an endless sequence of 100 ms timer wake-ups; the engine would
+  // report it as a step-horizon truncation after minutes. This watchdog turns it into a verdict: at most a dozen tasks
+  // exist, each lost wake-up costs one backstop period, so 3 s of virtual time (30 periods) without an end is "never".
+  mc::Shared<int> stage{0};
+  constexpr uint64_t kLimitNs = 3000000000ULL;
+  mc::spawn([&stage] {
+    mc::block_until([&stage] { return stage.get() == 2 || mc::now_ns() > kLimitNs; });
+    MC_CHECK(stage.get() == 2, "no termination: after %llu ms of virtual time (30 backstop periods) %s", (unsigned long long)(mc::now_ns() / 1000000),
+             stage.get() == 0 ? "the outer wait() has not returned" : "~ThreadPool has not returned");
+  });
   {
     dispenso::ThreadPool pool((size_t)N);
     s.pool = &pool;
     if (o == "T") {
       dispenso::TaskSet set(pool);
-      outer(s, pool, set, prog, k, fq);
+      outer(s, pool, set, prog, k, fq, idle);
     } else if (o == "C") {
       dispenso::ConcurrentTaskSet set(pool);
-      outer(s, pool, set, prog, k, fq);
+      outer(s, pool, set, prog, k, fq, idle);
     } else {
       dispenso::ConcurrentTaskSet set(pool, dispenso::TaskCost::kLightweight);
-      outer(s, pool, set, prog, k, fq);
+      outer(s, pool, set, prog, k, fq, idle);
     }
     cov("outer_wait_returned");
+    stage.set(1);
   }
+  stage.set(2);
+  mc::join_all();
   // not part of C06 (it is C02's barrier), but free to look at: nothing was lost on the way
   MC_CHECK(s.outer_ran.get() == (int)prog.size(), "only %d of %d outer tasks ran", s.outer_ran.get(), (int)prog.size());
   for (int i = 0; i < s.next.get(); i++) MC_CHECK(s.leaf_ran[i].get() == 1, "leaf %d ran %d times", i, s.leaf_ran[i].get());
@@ -284,6 +324,7 @@ struct Fun {
     int prev = s->ran[id].add(1);
     MC_CHECK(prev == 0, "functor %d invoked a second time", id);
     s->thr[id].set(&tl_me);
+    mc::point(); // the functor is "running": others may interleave here (a wait() returning now returns too early)
     if (d > 0) recurse(*s, shape, a, d);
     s->fin[id].set(1);
   }
